@@ -65,6 +65,7 @@ type Config struct {
 	Auth    bool
 	FS      bool // enable the VFS recorder (VERIF_FS=1)
 	FSMatch string
+	BGOff   bool // keep background compaction / out-of-order merge switched off (VERIF_BG_OFF)
 }
 
 type Server struct {
@@ -175,6 +176,9 @@ func (s *Server) Start(extraEnv ...string) error {
 		if s.Cfg.FSMatch != "" {
 			cmd.Env = append(cmd.Env, "VERIF_FS_MATCH="+s.Cfg.FSMatch)
 		}
+	}
+	if s.Cfg.BGOff {
+		cmd.Env = append(cmd.Env, "VERIF_BG_OFF=1")
 	}
 	cmd.Env = append(cmd.Env, s.Cfg.Env...)
 	cmd.Env = append(cmd.Env, extraEnv...)
